@@ -129,7 +129,7 @@ pub fn exec(plan: &Plan, trials: &mut Trials) -> RunReport {
             let property = if class == "HARNESS" { "HARNESS" } else { "C13" };
             rep.viols.push(Viol { property: property.into(), class, detail, trial: 0 });
         }
-        Caught::Panic(p) => rep.viols.push(Viol { property: "C13".into(), class: format!("panic:{}", normalise(&p)), detail: p, trial: 0 }),
+        Caught::Panic(p) => rep.viols.push(Viol { property: "C13".into(), class: panic_class(&p), detail: p, trial: 0 }),
         Caught::Budget => {}
     }
     rep
